@@ -34,7 +34,7 @@ META = {
         'C06.PATH-OFFSET - every definition of a packed field reaching the pack is parameter + c with the same c on '
         'every path (scalar and array calls agree); C06.RUN2D - the vN_M_P radix agrees between pack, unpack and the '
         'regex; C06.NOMUT - no in-place write to a caller-supplied array; C06.STRCONV - string IDs are converted with '
-        'astype to the 64-bit type before shifting. NOT decided: numpy integer semantics (trusted base); nothing '
+        'astype to the 64-bit type before shifting. C06.WIDE - every shifted objID operand is 64 bits wide on every path (the caller\'s own int16/int32 array is never shifted in its own width); C06.RUN2D also: the run2d column is filled per element (a value taken from element 0 is broadcast only under an .all() guard). Table-driven spellings are partially evaluated first (pydlsa/normalize.py), so the same rules judge `for name in (...)` versions of packer and unpacker. NOT decided: numpy integer semantics (trusted base); nothing '
         'else behavioural remains.'),
     'floors': {'C06.WIDE': 6, 'C06.PACK': 13, 'C06.GUARD': 13, 'C06.SHAPE': 11, 'C06.EXCL': 1, 'C06.CAST': 6, 'C06.UNPACK': 12,
                'C06.PATH-OFFSET': 13, 'C06.RUN2D': 6, 'C06.DOC': 2},
